@@ -131,6 +131,51 @@ class Gen:
             pass  # granularity 0 loops forever in registerUsageForDuration: never generated
 
 
+def lt_family(r: common.Rng) -> dict:
+    """LessThan over Max nodes whose Choose options have MIXED durations and several start
+    options, the other side tightening the bound (the shape on which the critical-path pass
+    derives earliest-end / latest-start bounds of a Max from its merged time bounds).
+    Utilities favour the short options next to the bound, i.e. the ones a wrong bound purges."""
+    k = itertools.count()
+
+    def mx(task, starts, durs, utils, parts, n):
+        return {"t": "max", "name": f"M{next(k)}", "ch": [
+            {"t": "choose", "name": task, "parts": parts, "n": n, "start": s, "dur": d, "u": u}
+            for s, d, u in zip(starts, durs, utils)]}
+
+    np_ = r.choice([1, 1, 2])
+    parts = [{"id": i, "name": f"P{i}", "qty": r.choice([1, 1, 2])} for i in range(np_)]
+    pids = [p["id"] for p in parts]
+
+    def side(task, lo, hi, kmin, kmax, prefer):
+        kk = r.randint(kmin, kmax)
+        starts = sorted(r.sample(range(lo, hi + 1), min(kk, hi - lo + 1)))
+        durs = [r.choice([1, 1, 2, 3, 4]) for _ in starts]
+        if len(set(durs)) == 1 and len(durs) > 1:
+            durs[r.randrange(len(durs))] = durs[0] % 4 + 1  # force mixed durations
+        utils = [r.randint(1, 3) for _ in starts]
+        # the best option is a short one: early-and-short on the right, late-and-short on the left
+        order = sorted(range(len(starts)), key=lambda i: (durs[i], starts[i] if prefer == "early" else -starts[i]))
+        utils[order[0]] = r.randint(4, 6)
+        return mx(task, starts, durs, utils, r.sample(pids, r.randint(1, len(pids))), 1)
+
+    a = side("TA", 0, 4, 1, 3, "late")
+    b = side("TB", 1, 7, 2, 4, "early")
+    lt = {"t": "lt", "name": "L", "ch": [a, b]}
+    shape = r.choice(["plain", "plain", "min", "chain", "scale", "sibling"])
+    ch = [lt]
+    if shape == "min":
+        ch = [{"t": "min", "name": "N", "ch": [lt]}]
+    elif shape == "scale":
+        ch = [{"t": "scale", "name": "S", "f": 2, "disregard": False, "ch": [lt]}]
+    elif shape == "chain":
+        c = side("TC", 3, 9, 2, 3, "early")
+        ch = [{"t": "lt", "name": "L2", "ch": [lt, c]}]
+    elif shape == "sibling":
+        ch = [lt, {"t": "choose", "name": "TS", "parts": [pids[0]], "n": 1, "start": r.randint(0, 5), "dur": r.choice([1, 2]), "u": r.randint(1, 3)}]
+    return {"suite": "strl", "parts": parts, "avail": pids, "now": 0, "gran": 1, "tree": {"t": "obj", "name": "O", "ch": ch}}
+
+
 def walk(n):
     yield n
     for c in n.get("ch", []):
